@@ -1,0 +1,60 @@
+//go:build verif
+// +build verif
+
+package node
+
+// Contracts for the verification machinery in /verif (govc). Comment-only file:
+// it adds no executable code and is compiled only with the build tag `verif`.
+
+//@ props C04
+//@
+//@ spec func debitT(b map[factom.FAAddress]map[int]int, a factom.FAAddress, t int, v int) map[factom.FAAddress]map[int]int = credit(b, a, t, 0 - v)
+//@ spec func creditAll(b map[factom.FAAddress]map[int]int, xs []fat2.AddressAmountTuple, n int, t int, burn factom.FAAddress) map[factom.FAAddress]map[int]int =
+//@     n <= 0 ? b : (xs[n - 1].Address != burn ? credit(creditAll(b, xs, n - 1, t, burn), xs[n - 1].Address, t, xs[n - 1].Amount) : creditAll(b, xs, n - 1, t, burn))
+//@ spec func sumNonBurn(xs []fat2.AddressAmountTuple, n int, burn factom.FAAddress) int =
+//@     n <= 0 ? 0 : sumNonBurn(xs, n - 1, burn) + (xs[n - 1].Address != burn ? xs[n - 1].Amount : 0)
+//@ spec func pegDeferred(h int, xs []fat2.Transaction, i int) bool =
+//@     h >= config.PegnetConversionLimitActivation && len(xs[i].Transfers) == 0 && xs[i].Conversion == fat2.PTickerPEG
+//@ spec func convOut(h int, xs []fat2.Transaction, i int, rates gomap[fat2.PTicker]uint64, avgs gomap[fat2.PTicker]uint64) int =
+//@     convSpec(h, xs[i].Input.Amount, rates[xs[i].Input.Type], avgs[xs[i].Input.Type], rates[xs[i].Conversion], avgs[xs[i].Conversion])
+//@ spec func txBal(b map[factom.FAAddress]map[int]int, xs []fat2.Transaction, i int, h int, rates gomap[fat2.PTicker]uint64, avgs gomap[fat2.PTicker]uint64, burn factom.FAAddress) map[factom.FAAddress]map[int]int =
+//@     pegDeferred(h, xs, i) ? debitT(b, xs[i].Input.Address, xs[i].Input.Type, xs[i].Input.Amount)
+//@     : (isConv(xs[i]) ? credit(debitT(b, xs[i].Input.Address, xs[i].Input.Type, xs[i].Input.Amount), xs[i].Input.Address, xs[i].Conversion, convOut(h, xs, i, rates, avgs))
+//@        : creditAll(debitT(b, xs[i].Input.Address, xs[i].Input.Type, xs[i].Input.Amount), xs[i].Transfers, len(xs[i].Transfers), xs[i].Input.Type, burn))
+//@ spec func batchBal(b map[factom.FAAddress]map[int]int, xs []fat2.Transaction, n int, h int, rates gomap[fat2.PTicker]uint64, avgs gomap[fat2.PTicker]uint64, burn factom.FAAddress) map[factom.FAAddress]map[int]int =
+//@     n <= 0 ? b : txBal(batchBal(b, xs, n - 1, h, rates, avgs, burn), xs, n - 1, h, rates, avgs, burn)
+//@ spec func txSup(s map[int]int, xs []fat2.Transaction, i int, h int, rates gomap[fat2.PTicker]uint64, avgs gomap[fat2.PTicker]uint64, burn factom.FAAddress) map[int]int =
+//@     pegDeferred(h, xs, i) ? upd(s, xs[i].Input.Type, s[xs[i].Input.Type] - xs[i].Input.Amount)
+//@     : (isConv(xs[i]) ? upd(upd(s, xs[i].Input.Type, s[xs[i].Input.Type] - xs[i].Input.Amount), xs[i].Conversion, upd(s, xs[i].Input.Type, s[xs[i].Input.Type] - xs[i].Input.Amount)[xs[i].Conversion] + convOut(h, xs, i, rates, avgs))
+//@        : upd(s, xs[i].Input.Type, s[xs[i].Input.Type] - xs[i].Input.Amount + sumNonBurn(xs[i].Transfers, len(xs[i].Transfers), burn)))
+//@ spec func batchSup(s map[int]int, xs []fat2.Transaction, n int, h int, rates gomap[fat2.PTicker]uint64, avgs gomap[fat2.PTicker]uint64, burn factom.FAAddress) map[int]int =
+//@     n <= 0 ? s : txSup(batchSup(s, xs, n - 1, h, rates, avgs, burn), xs, n - 1, h, rates, avgs, burn)
+//@ spec func burnAddrAt(h int) factom.FAAddress = h >= config.V202EnhanceActivation ? faAddr(GlobalBurnAddress) : zeroval("factom.FAAddress")
+//@
+//@ // All recursive ledger functions are evaluated on the entry heap (old): the batch is read-only input.
+//@ func (*Pegnetd).recordBatch
+//@   props C04 C06 C17 C03 C07
+//@   requires @hash txBatch.Entry.Hash != nil && d.Pegnet != nil
+//@   requires @nonneg balNonNeg(Lbal)
+//@   requires @burn_parses validFA(GlobalBurnAddress)
+//@   let H = *txBatch.Entry.Hash
+//@   let burn = burnAddrAt(currentHeight)
+//@   let txs = txBatch.Transactions
+//@   modifies Lbal, Lsupply, Lrel, Lexec, LtoAmt
+//@   ensures @executed err == nil && len(txs) > 0 ==> Lrel[H] && Lexec == upd(old(Lexec), H, currentHeight)
+//@   ensures @rel_frame err == nil ==> (forall h factom.Bytes32 :: h != H ==> (Lrel[h] <==> old(Lrel)[h]))
+//@   ensures @balances err == nil ==> Lbal == old(batchBal(Lbal, txs, len(txs), currentHeight, rates, averages, burn))
+//@   ensures @supply err == nil ==> Lsupply == old(batchSup(Lsupply, txs, len(txs), currentHeight, rates, averages, burn))
+//@   ensures @never_negative err == nil ==> balNonNeg(Lbal)
+//@   loop 1 invariant @range 0 <= iter && iter <= len(txs)
+//@   loop 1 invariant @bal Lbal == old(batchBal(Lbal, txs, iter, currentHeight, rates, averages, burn))
+//@   loop 1 invariant @nonneg balNonNeg(Lbal)
+//@   loop 1 invariant @sup Lsupply == old(batchSup(Lsupply, txs, iter, currentHeight, rates, averages, burn))
+//@   loop 1 invariant @rel (iter == 0 ==> Lrel == old(Lrel) && Lexec == old(Lexec)) && (iter > 0 ==> Lrel[H] && Lexec == upd(old(Lexec), H, currentHeight)) && (forall h factom.Bytes32 :: h != H ==> (Lrel[h] <==> old(Lrel)[h]))
+//@   loop 1 invariant @burn FAGlobalBurnAddress == burn
+//@   loop 2 invariant @range 0 <= iter && iter <= old(len(txs[iter1].Transfers)) && 0 <= iter1 && iter1 < len(txs)
+//@   loop 2 invariant @bal Lbal == old(creditAll(debitT(batchBal(Lbal, txs, iter1, currentHeight, rates, averages, burn), txs[iter1].Input.Address, txs[iter1].Input.Type, txs[iter1].Input.Amount), txs[iter1].Transfers, iter, txs[iter1].Input.Type, burn))
+//@   loop 2 invariant @nonneg balNonNeg(Lbal)
+//@   loop 2 invariant @sup Lsupply == old(upd(batchSup(Lsupply, txs, iter1, currentHeight, rates, averages, burn), txs[iter1].Input.Type, batchSup(Lsupply, txs, iter1, currentHeight, rates, averages, burn)[txs[iter1].Input.Type] - txs[iter1].Input.Amount + sumNonBurn(txs[iter1].Transfers, iter, burn)))
+//@   loop 2 invariant @rel Lrel[H] && Lexec == upd(old(Lexec), H, currentHeight) && (forall h factom.Bytes32 :: h != H ==> (Lrel[h] <==> old(Lrel)[h]))
+//@   loop 2 invariant @tx_is_transfer old(!isConv(txs[iter1]) && !pegDeferred(currentHeight, txs, iter1))
